@@ -23,8 +23,11 @@ enum Naming {
     LongFlag,
     LongFlagAliasOnly,
     Both,
+    /// infer_subcommands + infer_long_args set on the root only (documented to reach every
+    /// descendant): steps spelled by a unique prefix of an alias, local flags by a prefix of their long
+    Inferred,
 }
-const NAMINGS: [Naming; 6] = [Naming::Name, Naming::Alias, Naming::ShortFlag, Naming::LongFlag, Naming::LongFlagAliasOnly, Naming::Both];
+const NAMINGS: [Naming; 7] = [Naming::Name, Naming::Alias, Naming::ShortFlag, Naming::LongFlag, Naming::LongFlagAliasOnly, Naming::Both, Naming::Inferred];
 
 #[derive(Clone, Copy, Debug, PartialEq, Eq)]
 enum GKind {
@@ -68,7 +71,7 @@ impl Cfg {
     fn decorate(&self, s: &mut CmdSpec, sf: char, lf: &str) {
         match self.naming {
             Naming::Name => {}
-            Naming::Alias => s.aliases.push(format!("{}-alias", s.name)),
+            Naming::Alias | Naming::Inferred => s.aliases.push(format!("{}-alias", s.name)),
             Naming::ShortFlag => s.short_flag = Some(sf),
             Naming::LongFlag => s.long_flag = Some(lf.into()),
             Naming::LongFlagAliasOnly => {
@@ -107,6 +110,10 @@ impl Cfg {
         sa.subs.push(sb);
         root.subs.push(sa);
         root.subs.push(sx);
+        if self.naming == Naming::Inferred {
+            root.set(Setting::InferSubcommands);
+            root.set(Setting::InferLongArgs);
+        }
         root
     }
     /// spellings of the step into subcommand `name` (level index of the *child*)
@@ -116,6 +123,10 @@ impl Cfg {
         match self.naming {
             Naming::Name => {}
             Naming::Alias => v.push((format!("{}-alias", name), false)),
+            Naming::Inferred => {
+                v.push((format!("{}-alias", name), false));
+                v.push((format!("{}-al", name), false));
+            }
             Naming::ShortFlag => v.push((format!("-{}", sf), true)),
             Naming::LongFlag => v.push((format!("--{}", lf), false)),
             Naming::LongFlagAliasOnly => {
@@ -231,7 +242,8 @@ fn lines(c: &Cfg, max_chain: usize, thorough: bool) -> Vec<Line> {
                         tokens.push(t);
                     }
                     if lv.p && !p_done {
-                        tokens.push(b"-p".to_vec());
+                        // `--p` is a unique prefix of the level's `--p<level>` under infer_long_args
+                        tokens.push(if c.naming == Naming::Inferred { b"--p".to_vec() } else { b"-p".to_vec() });
                     }
                     // q always in a later, separate short group (exercises the resume logic)
                     let mut qtok: Option<Vec<u8>> = if lv.q { Some(b"-q".to_vec()) } else { None };
